@@ -470,3 +470,36 @@ HEAP_HEADERS["C04D"] = ("From CppUVerif Require Import lib.CSem lib.CMem lib.CHe
                         "Definition sizeof_MemoryLeakDetectorNode : Z := @sizeof:src/CppUTest/MemoryLeakDetector.cpp:MemoryLeakDetectorNode@.\n"
                         "Section Detector.\nVariable actual : Z -> Z.\nVariable equal_type : Z -> Z -> Z.\nVariable destroyed : Z -> Z.\n")
 HEAP_FOOTERS["C04D"] = "\nEnd Detector.\n"
+
+# ------------------------------------------------------------------ C17 (second file): the plugin chain (install / remove / lookup / the pre and post recursions)
+_G17P = [["evs", "list pcev"], ["g_null", "hptr"]]
+_PL = "src_plugin_"
+_C17P = {n: {"fn": _PL + n, "method": True} for n in ["addPlugin", "getNext", "getName", "removePluginByName", "getPluginByName"]}
+_C17P.update({
+    "getPluginByName": {"fn": _PL + "getPluginByName", "method": True},
+    "instance": "g_null",                                           # NullTestPlugin::instance(): the one terminator object
+    "getName": {"recv_field": ["TestPlugin", "name_"]}, "getNext": {"recv_field": ["TestPlugin", "next_"]},
+    "operator==": "c_eq {0} {1}",                                   # names are compared; a name is an integer that identifies its text
+    "preTestAction": {"event": "PPre {r}", "recv": True}, "postTestAction": {"event": "PPost {r}", "recv": True},
+    # the two virtual recursions: NullTestPlugin overrides them with an empty body, no other class of the repository does
+    "runAllPreTestAction": {"fn": _PL + "runAllPreTestAction", "method": True, "args": [], "virtual_null": "g_null"},
+    "runAllPostTestAction": {"fn": _PL + "runAllPostTestAction", "method": True, "args": [], "virtual_null": "g_null"}})
+HEAP_RECORDS["C17P"] = [["TestPlugin", TPL, "own"], ["TestRegistry", TRG, "own"]]
+_P17 = dict(calls=_C17P, ghosts=_G17P, opaque_classes=["SimpleString"], derived_as_base=True)
+HEAP_GROUPS["C17P"] = (
+    [dict(file=TPL, name="TestPlugin::addPlugin", coq=_PL + "addPlugin", **{"class": "TestPlugin"}, **_P17),
+     dict(file=TPL, name="TestPlugin::runAllPreTestAction", coq=_PL + "runAllPreTestAction", recursive=True, **{"class": "TestPlugin"}, **_P17),
+     dict(file=TPL, name="TestPlugin::runAllPostTestAction", coq=_PL + "runAllPostTestAction", recursive=True, **{"class": "TestPlugin"}, **_P17),
+     dict(file=TPL, name="TestPlugin::getPluginByName", coq=_PL + "getPluginByName", recursive=True, **{"class": "TestPlugin"}, **_P17),
+     dict(file=TPL, name="TestPlugin::removePluginByName", coq=_PL + "removePluginByName", **{"class": "TestPlugin"}, **_P17),
+     dict(file=TPL, name="TestPlugin::disable", coq=_PL + "disable", **{"class": "TestPlugin"}, **_P17),
+     dict(file=TPL, name="TestPlugin::enable", coq=_PL + "enable", **{"class": "TestPlugin"}, **_P17)] +
+    [dict(file=TRG, name="TestRegistry::" + n, coq="src_registry_" + n, **_P17) for n in
+     ["resetPlugins", "installPlugin", "getFirstPlugin", "getPluginByName", "removePluginByName", "countPlugins"]])
+HEAP_HEADERS["C17P"] = ("From CppUVerif Require Import lib.CSem lib.CMem lib.CHeap.\nLocal Open Scope Z_scope.\n"
+                        "(* translated by tools/cxx2heap.py: the plugin chain of TestPlugin / TestRegistry. NullTestPlugin::instance() is the ghost constant "
+                        "g_null (the one terminator object); the virtual runAllPreTestAction / runAllPostTestAction resolve to NullTestPlugin's empty "
+                        "override when the receiver is g_null and to TestPlugin's definition otherwise (no other class of the repository overrides them); "
+                        "a plugin's own preTestAction / postTestAction are the ghost events PPre / PPost carrying the plugin; a name is an integer that "
+                        "identifies its text *)\n"
+                        "Inductive pcev := PPre (p : hptr) | PPost (p : hptr).\n")
